@@ -217,6 +217,30 @@ def correspondence(ctx, model_ok):
                      f"triple:{tag}:{sorted(a.names)}:{sorted(b.names)}:{sorted(c.names)}",
                      {"kind": "triple", "universe": tag})
 
+    # ---- a group handed to another universe version must be re-closed there (or refused if it names unknown dimensions)
+    unis = gen_universe.universes()
+    for (t1, u1), (t2, u2) in itertools.product(unis, unis):
+        if u1 is u2:
+            continue
+        dims1 = [d for d in u1.dimensions.names if d not in u1.skypix_dimensions.names]
+        for _ in range(12 if ctx.quick() else 150):
+            names = [d for d in dims1 if rng.random() < 0.2]
+            g1 = DimensionGroup(u1, names)
+            ctx.evaluations += 1
+            try:
+                want = set(DimensionGroup(u2, set(g1.names)).names)
+            except KeyError:
+                want = "KeyError"
+            try:
+                got = set(DimensionGroup(u2, g1).names)
+            except KeyError:
+                got = "KeyError"
+            if got != want:
+                viol(f"DimensionGroup({t2}, <group {sorted(g1.names)} of {t1}>) = {got if got == 'KeyError' else sorted(got)}, but building it from "
+                     f"the same names gives {want if want == 'KeyError' else sorted(want)}", f"cross-universe:{t1}:{t2}:{sorted(g1.names)}",
+                     {"kind": "cross-universe", "from": t1, "to": t2, "names": sorted(g1.names)})
+    ctx.count("cross-universe-pairs", len(unis) * (len(unis) - 1))
+
     for i in range(0, len(req), max(1, len(req) // 6)):
         ctx.sample({"request": req[i], "implementation": impl[i]})
     if model_ok:
